@@ -48,16 +48,20 @@ Definition notdef_src : glyph_src :=
 
 Definition unit100 : contour := [(0, 0); (100, 0); (100, 100); (0, 100)]%Q.
 
+(* counting in Z (Z.of_nat on a unary index would make the generators quadratic) *)
+Fixpoint zseq_map {A} (f : Z -> A) (i : Z) (n : nat) : list A :=
+  match n with O => [] | S m => f i :: zseq_map f (i + 1) m end.
+
 (* the harness' zigzag(np): point i = (i mod 20000, 40 * (i / 20000) + 10 * (i mod 2)) *)
 Definition zigzag (n : nat) : contour :=
-  map (fun i : nat => let z := Z.of_nat i in (inject_Z (z mod 20000), inject_Z (40 * (z / 20000) + 10 * (z mod 2)))) (seq 0 n).
+  zseq_map (fun z => (inject_Z (z mod 20000), inject_Z (40 * (z / 20000) + 10 * (z mod 2)))) 0 n.
 
 (* k components of glyph gid at offsets (i mod 100, i / 100) *)
 Definition grid_comps (gid : Z) (k : nat) : list (Z * affine) :=
-  map (fun i : nat => let z := Z.of_nat i in (gid, (1, 0, 0, 1, inject_Z (z mod 100), inject_Z (z / 100))%Q)) (seq 0 k).
+  zseq_map (fun z => (gid, (1, 0, 0, 1, inject_Z (z mod 100), inject_Z (z / 100))%Q)) 0 k.
 
 Definition empty_glyphs (distinct : bool) (n : nat) : list glyph_src :=
-  map (fun i : nat => SrcSimple (if distinct then inject_Z (500 + Z.of_nat i mod 2) else 600) 1000 []) (seq 0 n).
+  zseq_map (fun z => SrcSimple (if distinct then inject_Z (500 + z mod 2) else 600) 1000 []) 0 n.
 
 (* x extent of the rectangle between 0 and x, at the default and at master 1 *)
 Definition extent2 (x0 x1 : Z) : list Z := [Z.min x0 0; Z.max x0 0; Z.min x1 0; Z.max x1 0].
